@@ -2,6 +2,7 @@ package props
 
 import (
 	"bytes"
+	"encoding/json"
 	"fmt"
 	"os"
 	"strings"
@@ -52,12 +53,14 @@ func genExtSpec(t *rapid.T) ExtSpec {
 }
 
 type CaseC06RT struct {
+	vt.Env
 	Zone string
 	Ext  ExtSpec
 	Msgs []*rgen.Msg // earlier parses through the same options object, then the target (last)
 }
 
 type CaseC06Static struct {
+	vt.Env
 	Feed    *sgen.Feed
 	Pres    sgen.Presentation
 	Inherit bool
@@ -117,7 +120,32 @@ func writeDigest(test string, caseFP, resultFP uint64) {
 	fmt.Fprintf(digestFile, "%s %d %016x %016x\n", test, c06Current[test], caseFP, resultFP)
 }
 
+// c06EnvNeutral is the normal form used to compare results obtained under different process time zones. The NYCT metadata
+// translation is JSON text holding time.Time values: the same instants are written with the offset of the process zone
+// (the library's own test expects exactly that), which is a presentation of equal values, not a different result - the
+// metadata is therefore decoded and its instants compared as Unix seconds.
+func c06EnvNeutral(r *gtfs.Realtime) string {
+	n := rgen.Normalize(r)
+	for ai := range n.Alerts {
+		for di := range n.Alerts[ai].Desc {
+			d := &n.Alerts[ai].Desc[di]
+			if d.Lang != nyctalerts.MetadataLanguage {
+				continue
+			}
+			var md nyctalerts.Metadata
+			if err := json.Unmarshal([]byte(d.Text), &md); err == nil {
+				d.Text = fmt.Sprintf("metadata{created=%d updated=%d display_before_active=%d active_period=%q}", md.CreatedAt.Unix(), md.UpdatedAt.Unix(), md.DisplayBeforeActive, md.HumanReadableActivePeriod)
+			}
+		}
+	}
+	return rgen.JS(n)
+}
+
 const c06Repeats = 8
+
+// c06AltLocals are process time zones under which every C06 case is parsed once more: names that coincide with configured
+// zones or with abbreviations, at offsets of their own.
+var c06AltLocals = []string{"PST|-28800", "UTC|20700", "America/New_York|3600", "EDT|-14400"}
 
 func checkC06RT(c CaseC06RT) error {
 	if len(c.Msgs) == 0 {
@@ -129,7 +157,7 @@ func checkC06RT(c CaseC06RT) error {
 	}
 	target := bufs[len(bufs)-1]
 	pristine := append([]byte(nil), target...)
-	var first string
+	var first, firstNeutral string
 	for i := 0; i < c06Repeats; i++ {
 		r, err := gtfs.ParseRealtime(target, c.Ext.options(c.Zone))
 		if err != nil {
@@ -138,12 +166,25 @@ func checkC06RT(c CaseC06RT) error {
 		js := rgen.JS(rgen.Normalize(r))
 		if i == 0 {
 			first = js
+			firstNeutral = c06EnvNeutral(r)
 		} else if js != first {
 			return vt.FailSig("nondeterministic", "extension %+v: parse #%d of the same bytes with fresh options differs from parse #1: %s", c.Ext, i+1, rgen.FirstDiff(js, first))
 		}
 	}
 	if !bytes.Equal(target, pristine) {
 		return vt.Failf("ParseRealtime modified its input buffer")
+	}
+	// the same bytes and equivalent options under another process environment (time zone of the process)
+	for _, alt := range c06AltLocals {
+		vt.Env{Local: alt}.Apply()
+		r, err := gtfs.ParseRealtime(target, c.Ext.options(c.Zone))
+		c.Env.Apply()
+		if err != nil {
+			return vt.FailSig("environment-dependent", "with the process time zone set to %q ParseRealtime rejects the message: %v", alt, err)
+		}
+		if js := c06EnvNeutral(r); js != firstNeutral {
+			return vt.FailSig("environment-dependent", "extension %+v: with the process time zone set to %q the result differs: %s", c.Ext, alt, rgen.FirstDiff(js, firstNeutral))
+		}
 	}
 	shared := c.Ext.options(c.Zone)
 	for _, b := range bufs[:len(bufs)-1] {
@@ -193,6 +234,17 @@ func checkC06Static(c CaseC06Static) error {
 	}
 	if !bytes.Equal(b, pristine) {
 		return vt.Failf("ParseStatic modified its input buffer")
+	}
+	for _, alt := range c06AltLocals {
+		vt.Env{Local: alt}.Apply()
+		s, err := gtfs.ParseStatic(b, opts)
+		c.Env.Apply()
+		if err != nil {
+			return vt.FailSig("environment-dependent", "with the process time zone set to %q ParseStatic rejects the archive: %v", alt, err)
+		}
+		if js := sgen.JS(sgen.Normalize(s)); js != first {
+			return vt.FailSig("environment-dependent", "with the process time zone set to %q the result differs: %s", alt, rgen.FirstDiff(js, first))
+		}
 	}
 	for _, h := range c.History {
 		gtfs.ParseStatic(sgen.Render(h.Tables(), sgen.Canonical()), opts)
@@ -265,6 +317,7 @@ func TestC06Realtime(t *testing.T) {
 		zone := rapid.SampledFrom([]string{"", "America/New_York"}).Draw(t, "zone")
 		ext := genExtSpec(t)
 		c := CaseC06RT{Zone: zone, Ext: ext}
+		c.Env = genEnv(t)
 		nh := rapid.IntRange(0, 4).Draw(t, "history")
 		for i := 0; i < nh; i++ {
 			m, _, _ := genC06Msg(t, zone, ext)
@@ -320,6 +373,7 @@ func TestC06Static(t *testing.T) {
 		}
 		p, _ := sgen.GenPresentation(t, f.Tables())
 		c := CaseC06Static{Feed: f, Pres: p, Inherit: rapid.Bool().Draw(t, "inherit")}
+		c.Env = genEnv(t)
 		for i := rapid.IntRange(0, 3).Draw(t, "history"); i > 0; i-- {
 			h, _ := sgen.GenFeed(t, sgen.DefaultGenOpts())
 			c.History = append(c.History, h)
@@ -352,6 +406,7 @@ func TestC06Static(t *testing.T) {
 // ---- every input, accepted or not, is left untouched and gives the same outcome each time
 
 type CaseC06Bytes struct {
+	vt.Env
 	Static  bool
 	Data    []byte
 	Inherit bool
@@ -406,6 +461,7 @@ func checkC06Bytes(c CaseC06Bytes) error {
 func TestC06Bytes(t *testing.T) {
 	rapid.Check(t, func(t *rapid.T) {
 		c := CaseC06Bytes{Static: rapid.IntRange(0, 3).Draw(t, "static") != 0, Inherit: rapid.Bool().Draw(t, "inherit")}
+		c.Env = genEnv(t)
 		var cls []string
 		var orig []byte
 		if c.Static {
